@@ -202,7 +202,7 @@ LEVELS = {
     "C14": ("Proved: when the single failing store call fires inside Mkdir, Remove, Chmod, Chtimes or the Rename of a regular file the operation returns an error (and every record is unchanged for the first four); in every state a reported success of Mkdir/Remove/Chmod, of the Rename of a non-directory, of a non-empty Write/WriteAt and of OpenFile implies the record is (not) in the store; a rejected Set is reported; a failed Get is never mistaken for not-exist; the fault fires at most once; the model has no panic outcome. "
             "Checked every run: every history x every fault index, plain and transaction store: model = implementation; success despite a failed call only if result and store equal the failure-free ones; view = store afterwards.",
             "Not proved for OpenFile, WriteFile, Rename of directories, MkdirAll, RemoveAll and handle operations (the code ignores failures of look-ups it did not need there)."),
-    "C15": ("Proved over the interleaving model of Mkdir/Remove/Stat/Chmod/Rename-of-a-file: linearizability is REFUTED (two witnesses, matching the known findings); the unrelated-paths clause is proved in general -- for any number of goroutines, any programs, any store and any schedule, goroutines whose written paths lie outside the others' read regions (in particular: pairwise apart real-name paths) end every complete run, interleaved or sequential, with the same results and the same store, and a sequential order always exists; single-transaction operations are linearizable; transactions are exclusive and released. "
+    "C15": ("Proved over the interleaving model of Mkdir/MkdirAll/Remove/Stat/Chmod/Rename-of-a-file: linearizability is REFUTED (two witnesses, matching the known findings); the unrelated-paths clause is proved in general -- for any number of goroutines, any programs, any store and any schedule, goroutines whose written paths lie outside the others' read regions (in particular: pairwise apart real-name paths) end every complete run, interleaved or sequential, with the same results and the same store, and a sequential order always exists; orphans need a remover (any number of goroutines over Mkdir/MkdirAll/Chmod/Stat, every schedule, every point of the run: the store is a well-formed tree); single-transaction operations are linearizable; transactions are exclusive and released. "
             "Checked every run: all interleavings at store-transaction granularity of small programs vs all sequential orders; anomalies are minimised and identified by the shape of the minimal witness; a writer held inside its store transaction before each Set while observers run; free-running goroutines (writer and readers on one file, namespace work in private and common directories) in a child process built with the race detector: no data race, torn read, panic or deadlock.",
             "Partial: the property as stated does not hold of the code (three known findings). The race stage is a stress run, not an enumeration."),
     "C16": ("Proved: paging with any positive counts partitions the listing; mixed counts (non-positive = the rest) deliver every child once and reach the end; never an empty page with nil error; EOF iff exhausted; the handle's ReadDir is that pager; listing by name is sorted and a permutation. "
